@@ -538,6 +538,34 @@ func runC18(c *ev.Ctx) {
 				}
 			}
 		}
+		// epilogue: every connection ends inside the body of a last frame (pipe
+		// and socket transports alike). What the stream did not deliver must
+		// not be made up from whatever the recycled decode buffer still holds:
+		// the frame is not executed.
+		for ci, cn := range w.conns {
+			mark := w.rf.Len()
+			var fr []byte
+			if (round+ci)%2 == 0 {
+				fr = wire.Encode(wire.Twalk, 77, u(0), u(77), []string{strings.Repeat("T", 40+rr.Intn(80))})
+			} else {
+				fr = wire.Encode(wire.Tsymlink, 77, u(1), strings.Repeat("n", 10+rr.Intn(30)), strings.Repeat("t", 20+rr.Intn(60)), u(0))
+			}
+			k := 8 + rr.Intn(len(fr)-8)
+			cn.p.SendRaw(fr[:k])
+			cn.p.Flush()
+			cn.p.C.Close()
+			if o, d := quiesce.Await(cn.p.HandleDone, wd); o != quiesce.CondMet {
+				hang(c, o, d, "C18:Handle-does-not-return-after-a-frame-cut-short", nil)
+				continue
+			}
+			for _, cl := range w.rf.Since(mark) {
+				if cl.Method != "Close" {
+					c.Violation("C18:frame-cut-short-by-the-end-of-the-stream-was-executed:"+wire.TypeName(fr[4]), map[string]any{"frame_bytes": len(fr), "delivered": k, "backend_call": cl.String()})
+					break
+				}
+			}
+			c.Count("frames_cut_short_by_end_of_stream", 1)
+		}
 		if c.WantSample() {
 			var l []string
 			for _, st := range hist[:minI(len(hist), 12)] {
